@@ -202,7 +202,19 @@ fn apply(env: &Env, a: &Alt) -> Vec<Vec<u8>> {
 fn observe(env: &Env, alt: &[u8], rng: &mut Rng) -> (String, Vec<(String, String)>) {
     let pr = &env.pr;
     let mut viol = Vec::new();
-    let mut r = match drv::open(Cursor::new(alt), &pr.sks) {
+    // the fail-safe decryption mode of the configuration concerns repair only: the normal reader must
+    // behave the same whatever its value
+    let mut cfg = drv::reader_config(&pr.sks);
+    match rng.below(3) {
+        0 => {
+            cfg.failsafe_return_data_even_unauthenticated();
+        }
+        1 => {
+            cfg.failsafe_return_only_authenticated_data();
+        }
+        _ => {}
+    }
+    let mut r = match mla::ArchiveReader::from_config(Cursor::new(alt), cfg) {
         Ok(r) => r,
         Err(_) => return ("error_at_open".into(), viol),
     };
@@ -413,6 +425,20 @@ pub fn cases(ctx: &Ctx) -> Vec<Case> {
             let mut p = random_program(&mut rng, layers, 1, 3, 3, &crate::gen::chunk_sizes(), false);
             p.nrecip = 3;
             progs.push(p);
+        }
+        // several small files packed in a middle chunk, between two big ones: the first access to the
+        // altered chunk fails, later accesses (other files of the same chunk) must fail as well
+        for layers in [1u8, 3] {
+            let mut files = vec![FileSpec { name: NameKind::Plain(0), data: DataKind::Random }];
+            let mut ops = vec![Op::Add(0, Sz::new(0, 1, 50))];
+            for i in 1..=6 {
+                files.push(FileSpec { name: NameKind::Plain(i), data: DataKind::Random });
+                ops.push(Op::Add(i as usize, Sz::lit(30 + 7 * i as i64)));
+            }
+            files.push(FileSpec { name: NameKind::Plain(7), data: DataKind::Random });
+            ops.push(Op::Add(7, Sz::new(0, 2, 9)));
+            ops.push(Op::Finalize);
+            progs.push(Program { layers, level: 0, nrecip: 1, files, ops, seed: ctx.seed ^ 0x9AC });
         }
         let samples = if ctx.quick() { 1500 } else { 30000 };
         for p in &progs {
